@@ -74,7 +74,8 @@ let do_sq toks now il =
         if c = [] then "c:EMPTY" else itk
       | ["V"; src; mut; m; sv; cv] ->
         let i = (try int_of_string (String.sub src 1 (String.length src - 1)) with _ -> -1) in
-        let c = if i >= 0 && i < List.length !gens then List.nth !gens i else [] in
+        let c = if src.[0] = 'z' then ints_of_hex (String.sub src 1 (String.length src - 1))
+          else if i >= 0 && i < List.length !gens then List.nth !gens i else [] in
         let c = ns_of_ints (mutate c mut) in
         let t = mk_tuple m sv cv in
         let now_ns = z_of_int (!cur * 1000000000 + 500000000) in
@@ -86,6 +87,7 @@ let do_sq toks now il =
          | _ -> if mdl then "1" else "0")
       | ["L"; n] -> ttl := int_of_string n; "-"
       | ["W"; k] -> cur := now + int_of_string k; "-"
+      | ["N"] -> issued := []; "-"          (* another manager: nothing it is shown has been issued by it *)
       | _ -> "badstep") steps in
     String.concat " " (Printf.sprintf "now=%d" now :: outs)
   | _ -> "badline"
@@ -142,6 +144,7 @@ let do_tb toks now il =
       match split ':' spec with
       | ["P"; m] -> mutate !last_pado m
       | ["g"; fm; fs; fc; m] -> let c = next_cookie () in issue c (mk_tuple fm fs fc); mutate c m
+      | ["r"; hx] -> ints_of_hex hx
       | _ -> [] in
     let tag ty v = List.map int_of_n (add_tag (n_of_int ty) (ns_of_ints v)) in
     let tags spec = if spec = "-" then [] else
@@ -153,6 +156,10 @@ let do_tb toks now il =
         | 'e' -> tag 0 []
         | 'm' -> tag 0x0120 (ints_of_hex rest)
         | 'r' -> ints_of_hex rest
+        | 'n' -> tag 0x0101 (ints_of_hex rest)
+        | 'a' -> tag 0x0102 (ints_of_hex rest)
+        | 'y' -> tag 0x0110 (ints_of_hex rest)
+        | 'v' -> tag 0x0105 (ints_of_hex rest)
         | 'c' -> tag 0x0104 (cookie rest)
         | _ -> []) (split ',' spec) in
     let conc_extra = ref 0 in
@@ -176,7 +183,7 @@ let do_tb toks now il =
         | None -> (itk_full, "") in
       op_cookies := (if cks = "" then [] else List.map ints_of_hex (split ';' cks));
       let res = match split '/' tok with
-      | ["I"; m; sv; cv] ->
+      | "I" :: m :: sv :: cv :: _ ->
         let t = mk_tuple m sv cv in
         (match String.split_on_char ':' itk with
          | ["pado"; hx] -> pado_next := bytes_of_hex hx; issue (ints_of_hex hx) t
